@@ -43,7 +43,7 @@ type caseT struct {
 	ReleaseDelay int    // 0 right away, 1 after 1 ms, 2 after timeout/3
 	SubjectOn    int
 	SlowDrain    bool // the subject's subscriber keeps its channel open until the in-flight message is settled
-	Outcome      int  // subject handler: 0 success, 1 error, 2 panic
+	Outcome      int  // subject handler: 0 success, 1 error, 2 panic, 3 an error that says "cancelled" (the handler, or a call it made, gave up on a cancelled context)
 	SlowLogUs    int  // the logger's Error() takes this long (loggers do I/O)
 	NegTimeout   bool // CloseTimeout is negative (a deadline that already passed)
 	PubBlocks    bool // "publishing" point: the subject's Publish call returns only once the publisher has been closed (a client that flushes on Close)
@@ -100,7 +100,7 @@ func genCase(t *rapid.T) caseT {
 	if !c.GoChannel && c.Point == "in-handler" && !wantSubEnds {
 		c.SlowDrain = rapid.Bool().Draw(t, "subscriberDrainsBeforeClosing")
 	}
-	c.Outcome = rapid.SampledFrom([]int{0, 0, 1, 2, 2}).Draw(t, "subjectOutcome")
+	c.Outcome = rapid.SampledFrom([]int{0, 0, 1, 2, 2, 3, 3}).Draw(t, "subjectOutcome")
 	if c.Point == "publishing" || c.Point == "before-settle" {
 		c.Outcome = 0 // these points are only reached by a successful handler
 	}
@@ -265,6 +265,8 @@ func runCase(c caseT) (viol []string, held bool) {
 					return nil, errSubject
 				case 2:
 					panic("subject handler panics")
+				case 3:
+					return nil, fmt.Errorf("subject handler gave up: %w", context.Canceled)
 				}
 			}
 			if hasPub {
